@@ -15,7 +15,8 @@ from common import build_bins, child_env, load_known, run_harness, BUILD
 
 SITE_NAMES = {1: "GEZ + GEZ", 2: "GEZ * GEZ", 3: "GEZ.div(Pos)", 4: "Pos * Pos", 5: "Pos / Pos", 6: "Neg * Neg",
               7: "Neg / Neg", 8: "Neg.mul_pos", 9: "ratio.to_posdecimal", 10: "ratio.to_gezdecimal",
-              11: "c_maybe_round_to_effective_cent (math.rs:93)", 12: "NegDecimal::try_from(calculated sfl)",
+              11: "LessEqualZeroDecimal::try_from(effective-cent value) (delta_list.rs; math.rs:93 before the fix 4125b76)",
+              12: "NegDecimal::try_from(calculated sfl) (matched, not unwrapped, since 4125b76: unused)",
               13: "PosDecimal::try_from(affiliate ratio)", 14: "SflaTxSpecifics::total_amount", 15: "split balance",
               20: "set_latest_post_status acb assert", 21: "set_latest_post_status all-affiliate assert (portfolio_status.rs:100)"}
 
@@ -24,7 +25,9 @@ STRICT_SITES = (4, 5, 6, 7, 8, 9, 13, 14)   # C05_rounded_panic_classes: strictl
 
 
 def classify_panic(loc):
-    """known class of an implementation panic, from its source location / message"""
+    """class of an implementation panic, from its source location / message.  "eff-cent-zero" is no
+    longer a known class (fixed, see known-findings.d/C05.json): a panic classified so is reported
+    as a violation because the id is not among the known findings any more"""
     if "math.rs:93" in loc or ("does not match constraints" in loc and " 0.00" in loc and "Neg" in loc):
         return "eff-cent-zero"
     if "portfolio_status.rs:100" in loc:
@@ -48,6 +51,18 @@ def model_panic_class(p):
     if kind == 3 and site in STRICT_SITES:
         return "decimal-underflow"
     return None
+
+
+def load_fixed(prop):
+    """the fixed findings of a property, from its fragment known-findings.d/<prop>.json (the source
+    known-findings.json is assembled from): a finding listed there as fixed is no longer known, whatever
+    an older assembled file says"""
+    import json
+    from common import VERIF
+    p = os.path.join(VERIF, "known-findings.d", prop + ".json")
+    if not os.path.exists(p):
+        return []
+    return [k for k in json.load(open(p)).get("fixed", []) if k.get("property") == prop]
 
 
 def underflow_history(rng):
@@ -143,7 +158,8 @@ def run(res, ctx):
     tier, seed = ctx["tier"], ctx["seed"]
     rng = random.Random(seed * 179424673 + 5)
     st = collections.Counter()
-    known = load_known("C05")
+    fixed_ids = {k.get("id") for k in load_fixed("C05")}
+    known = [k for k in load_known("C05") if k["id"] not in fixed_ids]
     known_ids = {k["id"] for k in known}
     known_hit = collections.Counter()
     seen, samples = set(), []
@@ -372,6 +388,43 @@ def run(res, ctx):
             if status in ("panic", "timeout"):
                 res.violation("failing-input", "etrade-plan-pdf-tx-extract %s on a damaged %s confirmation: %s %s" % (" ".join(args), kind, status, info[:300]),
                               {"program": "etrade-plan-pdf-tx-extract", "args": args, "input": content.decode("utf-8", "replace"), "actual_impl": info})
+    # ---- fixed findings: the old witnesses are regression cases that must now be ACCEPTED; the
+    # witness of eff-cent-zero also as model rows, with the rows the model reports (rounded and exact)
+    import datetime
+    for k in load_fixed("C05"):
+        w = k.get("witness", {})
+        if "csv" not in w:
+            continue
+        name = k.get("id", k["commit"])
+        cases = [{"files": [w["csv"]], "rows": [], "inits": {}}]
+        if name == "eff-cent-zero":
+            day = lambda y, m_, d_: datetime.date(y, m_, d_).toordinal()
+            cases.append({"inits": {}, "rows": [
+                {"sec": "FOO", "td": day(2020, 1, 2), "sd": day(2020, 1, 4), "act": "Buy", "sh": core.D(2), "aps": core.D(10000000001, 10),
+                 "com": None, "cur": None, "rate": None, "af": None},
+                {"sec": "FOO", "td": day(2020, 1, 10), "sd": day(2020, 1, 12), "act": "Sell", "sh": core.D(5, 1), "aps": core.D(1),
+                 "com": None, "cur": None, "rate": None, "af": None}]})
+        for n_, r in enumerate(corecheck.run_cases(ctx, cases, want_exact=True)):
+            st["evaluations"] += 1
+            st["fixed-witness-replayed"] += 1
+            i, m, mx = r["impl"], r["dec"], r["exact"]
+            bad = None
+            if i["status"] == "panic":
+                bad = "the witness of the fixed finding %s panics again: %s" % (name, i["panic"][:300])
+            elif i["status"] != "ok" or any(sc["stop"][0] != 0 for sc in i["secs"].values()):
+                bad = "the witness of the fixed finding %s is not accepted: %s" % (name, str(i.get("msg") or [sc.get("msg") for sc in i["secs"].values()])[:300])
+            elif n_ == 1:
+                d = core.diff_exact(m, i) or core.diff_exact(mx, i, fields=("act", "af", "sfl", "sfla"))
+                rows = [dl for sc in i["secs"].values() for dl in sc["deltas"]]
+                if d is not None:
+                    bad = "the witness of the fixed finding %s: model and implementation differ: %s" % (name, d)
+                elif (len(rows) != 2 or any(dl["sfl"] is not None for dl in rows) or any(dl["sfla"] for dl in rows)
+                      or rows[1]["gain"] != Fraction(-1, 20000000000)):
+                    # C05_effective_cent_witness_accepted: the purchase and the sale, no superficial loss
+                    # on the sale, no adjustment row, the whole loss is the capital gain
+                    bad = "the witness of eff-cent-zero is accepted with unexpected rows: %s" % str(rows)[:400]
+            if bad:
+                res.violation("failing-input", bad, {"input": r["hc"], "actual_impl": str(r["raw"])[:1500], "model": str(m)[:600]})
     # ---- known findings: replay the witnesses
     for k in known:
         w = k.get("witness", {})
